@@ -6,7 +6,7 @@
    Specification: Spec/CondGrammar.v (Spells: generative stratified grammar + layout; sem), Spec/Glob.v. *)
 From Coq Require Import NArith List Bool.
 From PS Require Import Base.Chars Base.Outcome Model.CondParse Model.Cond Spec.Glob Spec.CondGrammar
-                       Proofs.GlobP Proofs.CondParseP Proofs.CondP.
+                       Proofs.GlobP Proofs.CondParseP Proofs.CondP Proofs.CondSoundP.
 Import ListNotations.
 
 (* Every spelling s of every well-formed expression e (any redundant parentheses, any blanks, names
@@ -77,10 +77,16 @@ Theorem C02_undefined_reported :
 Proof. exact undefined_reported. Qed.
 Print Assumptions C02_undefined_reported.
 
-(* NOT PROVED (checked by the correspondence suite "raw" only): the converse "no junk accepted"
-     forall s t, parse s = Ok t -> exists e, Spells' s e /\ t ~ e
-   where Spells' additionally lets a reserved word stand for a name where the operator reading
-   fails ("not", "a and not") and allows "of*x" without a blank, as the implementation does. *)
+(* no junk is accepted: whatever the parser accepts is a spelling - by the same grammar, with the two
+   leniencies of the implementation spelled out in Spec.CondGrammar.SpellsL (a reserved word standing
+   for a name where the operator reading fails, "of" fused with a pattern starting with '*') - of an
+   expression that has the meaning of the returned tree under every valuation. Unbalanced parentheses,
+   missing operands or operators, '*' in names, '-' in patterns, other characters: all rejected. *)
+Theorem C02_reject :
+  forall s t, parse s = Ok t ->
+    exists e, SpellsLenient s e /\ forall vid vsel, denv vid vsel t = semv vid vsel e.
+Proof. exact accepted_is_spelled. Qed.
+Print Assumptions C02_reject.
 
 (* non-vacuity: hostile names are well-formed, and spellings exist *)
 Definition s_notepad : str := [110;111;116;101;112;97;100].
